@@ -35,7 +35,9 @@ def plan(tier, seed):
 def floors(tier):
     return {"evaluations": 8000, "strata": ["linear", "time", "time+calendar-edge"],
             "events": {"LinearScale.nice": 6000, "TimeScale.nice": 3000, "calendar.calls": 10000}, "distinct_nontrivial": 5000,
-            "paths": ["tickMethod.row12", "tickMethod.row15", "tickMethod.row17", "tickMethod.multi-year", "tickMethod.milliseconds"]}
+            "paths": ["tickMethod.row12", "tickMethod.row15", "tickMethod.row17", "tickMethod.multi-year", "tickMethod.milliseconds"],
+            # K3 is met about once in 1e5 linear cases; a hundred times that is something else
+            "max_known_finding_frac": {KEY_FLOAT_STEP: 0.001}}
 
 
 _REUSE = {"lin": None, "time": None}  # a quarter of the cases re-use the scale object of the previous case
